@@ -150,13 +150,14 @@ pub trait MergeStrategy {
             // no strategy touches the post order of the vertices
             final(t).post == old(t).post,
 //@loop 1
+            invariant_except_break t.n_cliques >= 2,
             invariant self.inv(*t), t.post == old(t).post,
             decreases (if self.done() { 0 } else { 1 + self.fuel(*t) }),
 //@end
 //@fn file=src/solver/chordal/merge/mod.rs in="trait MergeStrategy" name=initialise
 //@contract
         requires old(self).init_pre(*old(t)),
-        ensures final(self).inv(*final(t)), final(t).post == old(t).post,
+        ensures final(self).inv(*final(t)), final(t).post == old(t).post, final(t).n_cliques >= 2,
 //@end
 //@fn file=src/solver/chordal/merge/mod.rs in="trait MergeStrategy" name=is_done ret=r
 //@contract
@@ -164,7 +165,11 @@ pub trait MergeStrategy {
 //@end
 //@fn file=src/solver/chordal/merge/mod.rs in="trait MergeStrategy" name=traverse ret=r
 //@contract
-        requires old(self).inv(*t), !old(self).done(),
+        requires
+            old(self).inv(*t), !old(self).done(),
+            // a candidate pair needs two cliques (the clique-graph strategy panics on an empty edge list: `findmax(..).unwrap()`);
+            // this is what the early exit `if t.n_cliques == 1 { break; }` of the driver is for
+            t.n_cliques >= 2,
         ensures
             r is None ==> final(self).inv(*t),
             r matches Some(cand) ==> final(self).cand_ok(*t, cand, old(self).fuel(*t)),
@@ -177,7 +182,10 @@ pub trait MergeStrategy {
 //@fn file=src/solver/chordal/merge/mod.rs in="trait MergeStrategy" name=merge_two_cliques
 //@contract
         requires exists|f: nat| self.ready(*old(t), cand, f),
-        ensures forall|f: nat| #[trigger] self.ready(*old(t), cand, f) ==> self.mid(*final(t), cand, true, f), final(t).post == old(t).post,
+        ensures
+            forall|f: nat| #[trigger] self.ready(*old(t), cand, f) ==> self.mid(*final(t), cand, true, f), final(t).post == old(t).post,
+            // one clique less, never the last one
+            final(t).n_cliques == old(t).n_cliques - 1, final(t).n_cliques >= 1,
 //@end
 //@fn file=src/solver/chordal/merge/mod.rs in="trait MergeStrategy" name=update_strategy
 //@contract
@@ -200,7 +208,7 @@ impl NoMergeStrategy {
 impl MergeStrategy for NoMergeStrategy {
     // the trivial strategy: done from the start, so the driver never asks for a candidate (the four `unreachable!()` bodies are proof
     // obligations: their preconditions are unsatisfiable) and the tree comes back untouched
-    open spec fn init_pre(&self, t: SuperNodeTree) -> bool { out_ok(t) }
+    open spec fn init_pre(&self, t: SuperNodeTree) -> bool { out_ok(t) && t.n_cliques >= 2 }
     open spec fn inv(&self, t: SuperNodeTree) -> bool { out_ok(t) }
     open spec fn done(&self) -> bool { true }
     open spec fn fuel(&self, t: SuperNodeTree) -> nat { 0 }
@@ -638,7 +646,7 @@ impl ParentChildMergeStrategy {
 impl MergeStrategy for ParentChildMergeStrategy {
     // the tree built by SuperNodeTree::new with at least two cliques, whose post order ends with the root: every clique of order
     // 0..n-2 has a parent
-    open spec fn init_pre(&self, t: SuperNodeTree) -> bool { self.base(t) && tn(t) >= 2 && t.snode_post@.len() == tn(t) && trav_ok(t, tn(t) - 2) }
+    open spec fn init_pre(&self, t: SuperNodeTree) -> bool { self.base(t) && tn(t) >= 2 && t.n_cliques >= 2 && t.snode_post@.len() == tn(t) && trav_ok(t, tn(t) - 2) }
     open spec fn inv(&self, t: SuperNodeTree) -> bool { self.base(t) && (self.stop || trav_ok(t, self.clique_index as int)) }
     open spec fn done(&self) -> bool { self.stop }
     open spec fn fuel(&self, t: SuperNodeTree) -> nat { self.clique_index as nat }
@@ -762,12 +770,11 @@ it
             let b = t0.snode_children@[gch]@;
             lemma_ins_all_full(a, b);
         }
-//@before "t.n_cliques -= 1;"
-        proof { assert(t0.n_cliques >= 1); }
 //@post
         proof {
             assert(pc_merged(t0, *t, gp, gch));
             lemma_pc_merge(t0, *t, gp, gch);
+            lemma_tree_dims(*t);
             lemma_pc_in_sn(t0, *t, gp, gch);
             // the cliques of lower order keep a parent: they are not the child (the post order names no clique twice), and a parent
             // pointer only ever changes to p
